@@ -40,9 +40,9 @@ def build(ctx, rule):
     m.mod = mod
     # parent: the function whose while-loops read a multiprocessing queue created in that same function
     m.parent = None
-    from ..core import de_enumerate, tail_inlined
+    from ..core import de_enumerate, tail_inlined, inline_single_use_generators
 
-    for f in [de_enumerate(tail_inlined(repo, f0)) for f0 in mod.funcs.values()]:
+    for f in [inline_single_use_generators(de_enumerate(tail_inlined(repo, f0))) for f0 in mod.funcs.values()]:
         chans = set()
         for n in walk_own(f.node):
             if isinstance(n, ast.Assign) and isinstance(n.value, ast.Call) and len(n.targets) == 1:
@@ -89,6 +89,9 @@ def build(ctx, rule):
     from ..core import fold_consts
 
     m.worker = fold_consts(tail_inlined(repo, hoist_calls(repo, m.worker)))  # helpers of the worker (tallies, formatting) are read inlined
+    from ..core import guard_clauses_to_else
+
+    m.worker = guard_clauses_to_else(m.worker)  # `if too_long: pass it on; continue` + realignment is the if / else it abbreviates
     if any(isinstance(c, ast.Call) and isinstance(c.func, ast.Attribute) and c.func.attr == "get" and isinstance(c.func.value, ast.Name) and isinstance(m.worker.module.consts.get(c.func.value.id), ast.Dict) for c in walk_own(m.worker.node)):
         from ..core import expand_table_dispatch
 
@@ -537,4 +540,13 @@ def sentinel_guard(m, L):
             d = reaching_def(m.parent.node, L.node, a.id)
             if d is not None and norm(d).startswith("len(") and norm(d)[4:-1] in m.proc_lists:
                 return ("down", a.id)
+        # the number of processes held in a local taken right before the loop: n = len(procs); while c != n  (neither n nor
+        # the list changes inside the loop)
+        if isinstance(test.ops[0], (ast.NotEq, ast.Lt, ast.Gt)) and isinstance(b, ast.Name) and isinstance(a, ast.Name):
+            d = reaching_def(m.parent.node, L.node, b.id)
+            if d is not None and norm(d).startswith("len(") and norm(d)[4:-1] in m.proc_lists:
+                pl = norm(d)[4:-1]
+                touched = any((isinstance(x, ast.Name) and isinstance(x.ctx, ast.Store) and x.id in (b.id, pl)) or (isinstance(x, ast.Call) and isinstance(x.func, ast.Attribute) and norm(x.func.value) == pl and x.func.attr in ("append", "pop", "remove", "clear", "extend", "insert")) for x in ast.walk(L.node))
+                if not touched:
+                    return ("up", a.id)
     return None
